@@ -45,10 +45,20 @@ func sameTwice(c *core.Ctx, cs Case, what string) {
 }
 
 func renderOnce(s snippet.Snippet) (out string, imports map[string]string, pan any) {
+	return renderIn(s, pkgPath)
+}
+
+// otherPkgPath: a second target package (another file of the same run)
+const otherPkgPath = "x.io/other"
+
+// epoch is what the "text changes between renderings" argument renders; the harness moves it between renderings
+var epoch = 1
+
+func renderIn(s snippet.Snippet, target string) (out string, imports map[string]string, pan any) {
 	defer func() { pan = recover() }()
 	buf := bytes.NewBuffer(nil)
 	tr := namer.NewDefaultImportTracker()
-	w := gengo.NewSnippetWriter(buf, namer.NameSystems{"raw": namer.NewRawNamer(pkgPath, tr)})
+	w := gengo.NewSnippetWriter(buf, namer.NameSystems{"raw": namer.NewRawNamer(target, tr)})
 	w.Render(s)
 	return buf.String(), tr.Imports(), nil
 }
@@ -59,7 +69,10 @@ var tAlphabet = []string{"a", "b", "1", "_", "@", "'", "%", " ", "\n", ".", "é"
 
 // binding kinds for the name "a"
 var bindKinds = []string{"unbound", "nil-ident", "empty-block", "block", "nested-template", "placeholder-looking",
-	"no-arguments-at-all", "only-an-empty-Args-map", "only-a-nil-TArg", "whitespace-only-template", "tab-newline-block"}
+	"no-arguments-at-all", "only-an-empty-Args-map", "only-a-nil-TArg", "whitespace-only-template", "tab-newline-block",
+	// arguments whose rendering depends on WHEN and WHERE the template is rendered: the same template value is
+	// rendered for the target package, for another package, and again after the argument's text changed
+	"identifier-of-the-target-package", "snippet-whose-text-changes-between-renderings"}
 
 func bindingFor(kind int) (s snippet.Snippet, bound bool, text string) {
 	switch kind {
@@ -77,6 +90,12 @@ func bindingFor(kind int) (s snippet.Snippet, bound bool, text string) {
 		return snippet.T(" \t"), true, " \t" // text made of blanks only is text
 	case 10:
 		return snippet.Block("\t\n "), true, "\t\n "
+	case 11:
+		return snippet.ID(pkgPath + ".Thing"), true, "Thing"
+	case 12:
+		return snippet.Func(func(ctx context.Context) iter.Seq[string] {
+			return func(yield func(string) bool) { yield(fmt.Sprintf("E%d", epoch)) }
+		}), true, "E1"
 	default:
 		return snippet.Block("@a'%v@zz"), true, "@a'%v@zz"
 	}
@@ -170,8 +189,34 @@ func checkT(c *core.Ctx, format string, kind int) {
 	}
 	nilBound = map[string]bool{"a": ok && (kind == 1 || kind == 2)}
 	want, wantPanic := refT(format, bound, false, false)
-	got, _, pan := render(snippet.T(format, args...))
+	tv := snippet.T(format, args...)
+	got, _, pan := render(tv)
 	sameTwice(c, cs, fmt.Sprintf("T(%q)", format))
+	if kind == 11 || kind == 12 {
+		// the SAME template value rendered again where / when its argument renders differently, and then as at first
+		b2 := map[string]string{}
+		for k, v := range bound {
+			b2[k] = v
+		}
+		target := pkgPath
+		if kind == 11 {
+			b2["a"], target = "target.Thing", otherPkgPath
+		} else {
+			b2["a"], epoch = "E2", 2
+		}
+		want2, wantPanic2 := refT(format, b2, false, false)
+		got2, _, pan2 := renderIn(tv, target)
+		epoch = 1
+		got3, _, pan3 := renderIn(tv, pkgPath)
+		if wantPanic2 != (pan2 != nil) || (!wantPanic2 && got2 != want2) {
+			c.Fail("", cs, "T(%q) with a=%s, the same template value rendered a second time (%s): got %q (panic=%v), want %q (panic=%v); the first rendering gave %q", format, bindKinds[kind], map[int]string{11: "for package " + otherPkgPath, 12: "after the argument's text changed to E2"}[kind], got2, pan2, want2, wantPanic2, got)
+			return
+		}
+		if (pan != nil) != (pan3 != nil) || got3 != got {
+			c.Fail("", cs, "T(%q) with a=%s: rendered a third time under the conditions of the first rendering: %q (panic=%v), at first %q (panic=%v)", format, bindKinds[kind], got3, pan3, got, pan)
+			return
+		}
+	}
 	c.State(fmt.Sprintf("T/p=%v/%d", pan != nil, strings.Count(format, "@")))
 	if strings.Contains(format, "@") {
 		c.Nontrivial("T|" + format + "|" + bindKinds[kind])
@@ -274,18 +319,24 @@ type sarg struct {
 	okV  bool
 	asT  string
 	okT  bool
+	// rendering under %T when the target is the other package ("" = the same)
+	asTOther string
 }
 
 var sargs = []sarg{
-	{"string", "p/q.N", `"p/q.N"`, true, "q.N", true},
-	{"int", 7, "7", true, "", false},
-	{"snippet", snippet.Block("S%v@a"), "S%v@a", true, "S%v@a", true},
-	{"reflect.Type", reflect.TypeOf(map[string][]int{}), "", false, "map[string][]int", true},
-	{"empty-block", snippet.Block(""), "", true, "", true},
-	{"empty-template", snippet.T(""), "", true, "", true},
+	{"string", "p/q.N", `"p/q.N"`, true, "q.N", true, ""},
+	{"int", 7, "7", true, "", false, ""},
+	{"snippet", snippet.Block("S%v@a"), "S%v@a", true, "S%v@a", true, ""},
+	{"reflect.Type", reflect.TypeOf(map[string][]int{}), "", false, "map[string][]int", true, ""},
+	{"empty-block", snippet.Block(""), "", true, "", true, ""},
+	{"empty-template", snippet.T(""), "", true, "", true, ""},
+	{"name-of-the-target-package", pkgPath + ".Thing", `"x.io/target.Thing"`, true, "Thing", true, "target.Thing"},
 }
 
 // refSprintf: ok=false means the pairing is outside the alphabet (illegal verb/arg pairing)
+// sprintfOther: the expectation is computed for the other target package
+var sprintfOther bool
+
 func refSprintf(format string, args []int, devPct bool) (out string, panics bool, ok bool) {
 	rs := []rune(format)
 	var b strings.Builder
@@ -321,7 +372,11 @@ func refSprintf(format string, args []int, devPct bool) (out string, panics bool
 				if !a.okT {
 					return "", false, false
 				}
-				b.WriteString(a.asT)
+				if sprintfOther && a.asTOther != "" {
+					b.WriteString(a.asTOther)
+				} else {
+					b.WriteString(a.asT)
+				}
 			}
 		default:
 			return "", true, true
@@ -342,8 +397,20 @@ func checkSprintf(c *core.Ctx, format string, args []int) {
 	for i, a := range args {
 		vals[i] = sargs[a].v
 	}
-	got, _, pan := render(snippet.Sprintf(format, vals...))
+	sv := snippet.Sprintf(format, vals...)
+	got, _, pan := render(sv)
 	sameTwice(c, cs, fmt.Sprintf("Sprintf(%q)", format))
+	{
+		// the same value rendered for another target package
+		sprintfOther = true
+		want2, wantPanic2, _ := refSprintf(format, args, false)
+		sprintfOther = false
+		got2, _, pan2 := renderIn(sv, otherPkgPath)
+		if wantPanic2 != (pan2 != nil) || (!wantPanic2 && got2 != want2) {
+			c.Fail("", cs, "Sprintf(%q, %v), the same snippet value rendered a second time for package %s: got %q (panic=%v), want %q (panic=%v); the first rendering gave %q", format, argNames(args), otherPkgPath, got2, pan2, want2, wantPanic2, got)
+			return
+		}
+	}
 	c.State(fmt.Sprintf("S/p=%v/%d", pan != nil, strings.Count(format, "%")))
 	if strings.Contains(format, "%") {
 		c.Nontrivial(fmt.Sprint("S|", format, args))
@@ -634,7 +701,8 @@ func run(c *core.Ctx) {
 	c.Bound("T_bindings_of_a", bindKinds)
 	c.Bound("Sprintf_alphabet", sAlphabet)
 	c.Bound("Sprintf_max_len", sLen)
-	c.Bound("Sprintf_args", []string{"string", "int", "snippet", "reflect.Type", "empty-block", "empty-template"})
+	c.Bound("Sprintf_args", []string{"string", "int", "snippet", "reflect.Type", "empty-block", "empty-template", "name-of-the-target-package"})
+	c.Bound("renderings_per_snippet_value", "twice for the target package; templates with context- or time-dependent arguments and every Sprintf value once more for another package / after the change, then as at first")
 	c.Bound("Sprintf_max_args", 2)
 
 	// histories: 2 (3) T calls over one shared Args map, every format <=2 over {@a, @b, @c, x}
@@ -673,6 +741,9 @@ func run(c *core.Ctx) {
 			return
 		}
 		for k := range bindKinds {
+			if k >= 11 && !strings.Contains(f, "@a") {
+				continue // without a placeholder for a these behave like the plain block
+			}
 			checkT(c, f, k)
 		}
 		if strings.Count(f, "@") == 1 && len(f) == 4 {
